@@ -439,6 +439,29 @@ func Derive(r *rand.Rand, g *Graph, o GraphOpts) *Graph {
 			p.FSIDs = nil
 		}
 	}
+	// pointer rotation: two or three people exchange their pointers, so that
+	// a pointer match points at the wrong person (an export that renumbers);
+	// the families follow the people, not the pointers
+	if len(c.People) >= 2 && r.IntN(4) == 0 {
+		k := 2 + r.IntN(2)
+		if k > len(c.People) {
+			k = len(c.People)
+		}
+		idx := r.Perm(len(c.People))[:k]
+		ptrs := make([]string, k)
+		for i, j := range idx {
+			ptrs[i] = c.People[j].Ptr
+		}
+		inv := map[string]string{}
+		for old, nw := range mapping {
+			inv[nw] = old
+		}
+		for i, j := range idx {
+			np := ptrs[(i+1)%k]
+			c.People[j].Ptr = np
+			mapping[inv[ptrs[i]]] = np
+		}
+	}
 	fix := func(s string) string {
 		if s == "" {
 			return ""
